@@ -60,6 +60,8 @@ pub struct ConnSetup {
     pub inbox_capacity: usize,
     /// Substream open timeout of the local connection task.
     pub substream_open_timeout: Duration,
+    /// Capacity of the manager's event channel (256 in `TransportManager`).
+    pub manager_capacity: usize,
 }
 
 /// How the scripted remote treats substreams opened by the local side.
@@ -111,6 +113,8 @@ pub struct ConnectionHarness {
     keep_substreams: bool,
     held: Vec<InnerTransportEvent>,
     mgr_rx: Receiver<TransportManagerEvent>,
+    mgr_tx: Sender<TransportManagerEvent>,
+    mgr_blocked: bool,
     manager: Vec<usize>,
     next_substream: usize,
     remote_control: Option<crate::yamux::Control>,
@@ -163,7 +167,8 @@ impl ConnectionHarness {
             VerifTcpConnection::verif_negotiated_pair(setup.substream_open_timeout).await?;
         let names: Vec<ProtocolName> =
             (0..setup.protocols).map(|i| ProtocolName::from(format!("/verif/conn/{i}"))).collect();
-        let (mgr_tx, mgr_rx) = channel(64);
+        let (mgr_tx, mgr_rx) = channel(setup.manager_capacity.max(1));
+        let mgr_tx_keep = mgr_tx.clone();
         let mut protocols = HashMap::new();
         let (mut txs, mut inboxes) = (Vec::new(), Vec::new());
         for name in &names {
@@ -267,6 +272,8 @@ impl ConnectionHarness {
             keep_substreams: false,
             held: Vec::new(),
             mgr_rx,
+            mgr_tx: mgr_tx_keep,
+            mgr_blocked: false,
             manager: Vec::new(),
             next_substream: 1000,
             remote_control: Some(control),
@@ -314,6 +321,31 @@ impl ConnectionHarness {
             n += 1;
         }
         n
+    }
+
+    /// The manager loop is stalled: its event channel is filled up with reports of other connections
+    /// (ids counting down from `usize::MAX`) and not read any more. Returns the number added.
+    pub fn fill_manager(&mut self) -> usize {
+        self.pump();
+        self.mgr_blocked = true;
+        let mut n = 0;
+        while self
+            .mgr_tx
+            .try_send(TransportManagerEvent::ConnectionClosed {
+                peer: self.peer,
+                connection: crate::types::ConnectionId::from(usize::MAX - n),
+            })
+            .is_ok()
+        {
+            n += 1;
+        }
+        n
+    }
+
+    /// The manager loop reads its event channel again.
+    pub fn unblock_manager(&mut self) {
+        self.mgr_blocked = false;
+        self.pump();
     }
 
     /// Protocol `q` reads its inbox again.
@@ -442,8 +474,10 @@ impl ConnectionHarness {
                 }
             }
         }
-        while let Ok(TransportManagerEvent::ConnectionClosed { connection, .. }) = self.mgr_rx.try_recv() {
-            self.manager.push(connection.verif_as_usize());
+        if !self.mgr_blocked {
+            while let Ok(TransportManagerEvent::ConnectionClosed { connection, .. }) = self.mgr_rx.try_recv() {
+                self.manager.push(connection.verif_as_usize());
+            }
         }
     }
 
